@@ -544,7 +544,7 @@ Lemma tail_complete_fits bin sufs tv asg :
   fold_right (fun sn acc => lenN (fst sn) + 1 + acc) 1 sufs < 2 ^ 60 ->
   tail_complete bin sufs = Ok (tv, asg) -> tail_fits tv.
 Proof.
-  intros Hok Hsz H. unfold tail_complete in H.
+  intros Hok Hsz H. unfold tail_complete in H. rewrite !frev_eq in H.
   set (l := rev (SufSort.sort sufs)) in *.
   assert (Hperm' : Permutation sufs l).
   { subst l. eapply Permutation_trans; [apply SufSort.Permuted_sort|]. apply Permutation_rev. }
@@ -561,7 +561,7 @@ Proof.
   { cbn [tb_init tb_len]. lia. }
   pose proof (tb_fold_bytes bin l (tb_init bin) st) as Hch.
   specialize (Hch ltac:(cbn [tb_init tb_chars]; constructor; [reflexivity|constructor]) Hby Efold).
-  rewrite Efold in H. cbn [bind] in H. cbn [tb_init tb_len] in Hlen.
+  rewrite Efold in H. cbn [bind] in H. rewrite ?frev_eq in H. cbn [tb_init tb_len] in Hlen.
   destruct Hinv as [Hl _ Htm _ _].
   apply TailFacts.bind_ok_inv in H. destruct H as (tb & Etb & H).
   apply TailFacts.bind_ok_inv in H. destruct H as (terms & Eterms & H). injection H as <- <-.
